@@ -176,6 +176,9 @@ struct Session {
     rmax: usize,
     height: u64,
     now_ms: u64,
+    // times at which something expires exactly (TX_TTL after an accepted insert, the result
+    // retention after a block with results): generation aims maintenance at them
+    boundaries: Vec<u64>,
 }
 
 struct Env {
@@ -446,6 +449,7 @@ async fn exec(env: &mut Env, sess: &mut Option<Session>, op: &str) -> String {
             rmax,
             height: 10,
             now_ms: 0,
+            boundaries: Vec::new(),
         };
         let d = dump(env, &s).await;
         *sess = Some(s);
@@ -497,6 +501,9 @@ async fn exec(env: &mut Env, sess: &mut Option<Session>, op: &str) -> String {
                 Ok(InsertionStatus::AddedToParked) => "parked".to_string(),
                 Err(e) => format!("err:{}", err_kind(&e)),
             };
+            if !res.starts_with("err") && s.boundaries.len() < 64 {
+                s.boundaries.push(at + 240_000);
+            }
             format!("{res} | {}", dump(env, s).await)
         }
         "remove" => {
@@ -583,6 +590,9 @@ async fn exec(env: &mut Env, sess: &mut Option<Session>, op: &str) -> String {
             let now = advance_to(s, at).await;
             assert_eq!(now, at, "clock ran ahead of the trace");
             s.height = height;
+            if !results.is_empty() && s.boundaries.len() < 64 {
+                s.boundaries.push(at + 60_000);
+            }
             s.mempool
                 .run_maintenance(&s.chain, recost, results, height)
                 .await;
@@ -778,7 +788,20 @@ async fn gen_insert(env: &Env, s: &Session, rng: &mut Rng, g: &mut Gen, ops: &mu
     ));
 }
 
-fn gen_at(rng: &mut Rng, g: &mut Gen) -> u64 {
+fn gen_at(s: &Session, rng: &mut Rng, g: &mut Gen) -> u64 {
+    // aim exactly at / one millisecond past the expiry of a transaction or of a cached result
+    if rng.chance(8) {
+        let mut cands: Vec<u64> = Vec::new();
+        for t in &s.boundaries {
+            cands.push(*t);
+            cands.push(*t + 1);
+        }
+        cands.retain(|t| *t >= g.next_at);
+        if !cands.is_empty() {
+            g.next_at = *rng.pick(&cands);
+            return g.next_at;
+        }
+    }
     g.next_at += match rng.below(100) {
         0..=69 => rng.range(0, 50),
         70..=84 => rng.range(500, 5_000),
@@ -832,7 +855,7 @@ async fn gen_block(env: &Env, s: &Session, rng: &mut Rng, g: &mut Gen, ops: &mut
             ops.push(chain_line(s, a, nonces[a], bals[a], rng));
         }
     }
-    let at = gen_at(rng, g);
+    let at = gen_at(s, rng, g);
     ops.push(format!(
         "maintain {} {} {} {at}",
         u8::from(rng.chance(15)),
@@ -954,15 +977,15 @@ async fn gen_step(env: &Env, s: &Session, rng: &mut Rng, g: &mut Gen) -> Vec<Str
             ops.push(chain_line(s, a, nonce, bal, rng));
         }
         if rng.chance(75) {
-            let at = gen_at(rng, g);
+            let at = gen_at(s, rng, g);
             ops.push(format!("maintain {} {} - {at}", u8::from(rng.chance(20)), s.height + 1));
         }
     } else if c < 90 {
         ops.push(gen_fees(s, rng));
-        let at = gen_at(rng, g);
+        let at = gen_at(s, rng, g);
         ops.push(format!("maintain 1 {} - {at}", s.height + 1));
     } else if c < 97 {
-        let at = gen_at(rng, g);
+        let at = gen_at(s, rng, g);
         ops.push(format!("maintain {} {} - {at}", u8::from(rng.chance(30)), s.height + 1));
     } else if !s.txs.is_empty() {
         ops.push(format!("uncache t{}", rng.below(s.txs.len() as u64)));
